@@ -44,7 +44,7 @@ def main():
                 cmd = f"cargo test -p {name} --offline"
             if "--offline" not in cmd: cmd += " --offline"
             r1 = sh(cmd + " 2>&1 | tail -30", wt, env)
-            ok_head = "test result: ok" in r1.stdout and "FAILED" not in r1.stdout and "error" not in r1.stdout.split("test result")[0][-400:].lower().replace("errors", "")
+            ok_head = "test result: ok" in r1.stdout and "FAILED" not in r1.stdout and "error:" not in r1.stdout and "error[" not in r1.stdout
             a = sh(f"git apply {d}/patch.diff", wt)
             if a.returncode != 0:
                 print(f"{prop}/{k}: patch.diff does not apply with demo: {a.stderr[:200]}"); sh("git checkout -- . && git clean -fdq -e target", wt); continue
